@@ -28,4 +28,18 @@ theorem verify_comparisons : Facts.llo_VerifyChannelDefinitions_cmps =
 theorem cap_test : "len(outcome.ChannelDefinitions) >= MaxOutcomeChannelDefinitionsLength" ∈ Facts.llo_outcome_cmps := by
   decide
 
+/-- the decision points of `observation()` as transcribed in `DSV/LLO/Observe.lean` -/
+theorem observation_decision_points : Facts.llo_observation_ifs =
+    ["outctx.SeqNr < 1", "outctx.SeqNr == 1", "obsTSNanos < 0",
+     "previousOutcome.LifeCycleStage == LifeCycleStageRetired",
+     "VerifyChannelDefinitions(p.ReportCodecs, previousOutcome.ChannelDefinitions); err != nil",
+     "p.PredecessorConfigDigest != nil && previousOutcome.LifeCycleStage == LifeCycleStageStaging",
+     "err2 != nil", "obs.ShouldRetire && p.Config.VerboseLogging",
+     "VerifyChannelDefinitions(p.ReportCodecs, expectedChannelDefs); err != nil",
+     "exists && prev.Equals(channelDefinition)",
+     "len(obs.UpdateChannelDefinitions) >= MaxObservationUpdateChannelDefinitionsLength",
+     "len(obs.UpdateChannelDefinitions) > 0", "len(obs.RemoveChannelIDs) > 0",
+     "len(previousOutcome.ChannelDefinitions) == 0",
+     "p.DataSource.Observe(observationCtx, obs.StreamValues, &dsOpts{…}); err != nil"] := rfl
+
 end DSV.Props.C14.Facts
